@@ -507,7 +507,9 @@ def ref_alias(blk):
         st = stmts[i]
         if st.get("k") == "let" and st.get("pat", {}).get("k") == "pbind" and "Mut)" not in st["pat"].get("mode", "") \
                 and st.get("els") is None and isinstance(st.get("init"), dict) and st["init"].get("k") == "addr" \
-                and st["init"]["e"].get("k") == "field" and _place_path(st["init"]["e"]):
+                and ((st["init"]["e"].get("k") == "field" and _place_path(st["init"]["e"]))
+                     or (st["init"]["e"].get("k") == "local" and not st["init"].get("mut")
+                         and st["init"]["e"].get("name") != "self")):
             lid = st["pat"]["id"]
             rest = {"stmts": stmts[i + 1:], "expr": blk.get("expr")}
             rest = _replace_locals(rest, {lid: st["init"]})
@@ -639,3 +641,24 @@ def match_ints(n):
                       "then": a["body"] if a["body"].get("k") == "block" else _blk(a["body"], n.get("sp"), n.get("ty")),
                       "else": chain}, n.get("sp"), n.get("ty"))
     return chain["expr"]
+
+
+
+# ------------------------------------------------------------------ it.for_each(|x| B)  ->  for x in it { B }
+
+def for_each_to_for(n):
+    """std `Iterator::for_each` with a closure literal is the `for` loop over the same iterator (sequential, in order);
+    rayon's `ParallelIterator::for_each` is NOT touched."""
+    c = n.get("callee") or ""
+    if not (c.endswith("iter::Iterator::for_each") or c.endswith("iterator::Iterator::for_each")) or len(n.get("args", [])) != 1:
+        return None
+    f = _clo(n["args"][0], 1)
+    if f is None:
+        return None
+    from .inline import _has_ret
+    if _has_ret(f["body"]):
+        return None
+    body = f["body"] if f["body"].get("k") == "block" else _blk(f["body"], n.get("sp"), "()")
+    return {"k": "for", "ty": "()", "sp": n.get("sp"), "mac": "desugar:ForLoop", "lid": fresh_id(),
+            "iter_ty": (n.get("recv") or {}).get("ty", ""), "pat": f["params"][0], "iter": n["recv"], "body": body,
+            "from_for_each": True}
